@@ -45,7 +45,7 @@ func init() {
 				Min:  map[string]int64{"programs": 500}},
 			{Name: "programs", N: tier(250_000, 6_000_000), Run: c01Programs,
 				Rule: "PRNG programs as described above",
-				Min: map[string]int64{"programs": 20000, "lowres": 5000, "highres": 5000, "custom_viewbox": 5000, "custom_palette": 5000, "no_reset": 1000, "encoders_with_a_past": 20000, "accessor_reads_between_calls": 100000, "resolution_toggled_programs": 5000,
+				Min: map[string]int64{"programs": 20000, "lowres": 5000, "highres": 5000, "custom_viewbox": 5000, "custom_palette": 5000, "no_reset": 1000, "encoders_with_a_past": 20000, "accessor_reads_between_calls": 100000, "viewbox_extent_beyond_float32": 2000, "resolution_toggled_programs": 5000,
 					"op_AbsArcTo": 1000, "op_RelArcTo": 1000, "op_SetCReg": 10000, "op_SetNReg": 10000, "op_SetLOD": 1000, "op_AbsHLineTo": 1000, "op_RelVLineTo": 1000}},
 			{Name: "transcode", N: tier(120_000, 3_000_000), Run: c01Transcode,
 				Rule: "decoder-accepted streams (corpus files, mutated corpus files, hand-assembled streams with non-canonical forms) fed to an Encoder and decoded again, 4 hops, with a low-resolution and a high-resolution Encoder",
@@ -241,6 +241,15 @@ func c01Programs(c *run.Ctx, idx uint64) {
 	}
 	if r.Bool() {
 		vb := gen.ViewBox(r)
+		if r.Chance(1, 20) {
+			// finite, ordered bounds whose difference is beyond float32 (nothing is rendered here)
+			big := []float32{3.4028235e38, 2.5e38, 2e38, 1.8e38}
+			vb = ivg.ViewBox{MinX: -big[r.Intn(4)], MinY: -big[r.Intn(4)], MaxX: big[r.Intn(4)], MaxY: big[r.Intn(4)]}
+			if r.Bool() {
+				vb.MinY, vb.MaxY = -32, 32
+			}
+			c.Count("viewbox_extent_beyond_float32", 1)
+		}
 		o.ViewBox = &vb
 		if vb != ivg.DefaultViewBox {
 			c.Count("custom_viewbox", 1)
